@@ -82,6 +82,11 @@ CLAIMED = {
          "repeat: 1..3 sequential deliveries and 2 simultaneous ones per branch -> every sequential delivery Rollbacked, state == pre-state, later deliveries write nothing; faults: every command of the rollback transaction (BEGIN, undo-log SELECT FOR UPDATE, validation reads, each compensation, undo-log DELETE, COMMIT) x {error, connection lost before/after execution} -> tables equal the phase-one state with the undo log kept or the pre-state, never in between, Rollbacked only with the pre-state, clean retry restores and answers Rollbacked; late: 1..3 deliveries while phase one is held -> if answered Rollbacked the held local commit fails and commits nothing, final retry ends in the pre-state.",
          "The loser of two simultaneous deliveries may fail on the marker's unique key without an answer (the coordinator retries); only the following retry must be Rollbacked. The fake database ends the transaction when COMMIT fails. Hold at COMMIT relies on the fake's row-lock wait (1.5 s) like InnoDB's.",
          "DESIGN.md §4 C10"),
+ "C19": ("exploration",
+         "runtime monitor: (1) the real loadbalance.Select in a client child over a long-lived registry of monitor-owned sessions with generated open / close / release / select histories, checked against the set of registered open sessions at each selection; (2) connection cuts (orderly close, reset) injected by the fake coordinator at generated points of a workload of a fully initialised client (AT data source + TCC actions), with the coordinator-side frame log as the record of what the client announces on the new session",
+         "Five policies x 4 histories of 60-200 actions over 4 addresses with xids naming open / closed / unknown addresses or malformed: chosen session registered and open at that moment, nil only when none is open, XID policy honours ip:port. Cuts while idle / with a request in flight / between phase one and phase two, once and three times in a row, each on a client of its own: RegisterTM and RegisterRM for every earlier resource on the new session within 20 s, a new global transaction begins, the earlier branch's phase two is answered and restores the data.",
+         "Cases whose connection is never re-established within 20 s are inconclusive (the property presupposes re-establishment): dubbo-getty stops reconnecting after an orderly close by the peer and seata-go has no reconnect timer, see DESIGN.md observations.",
+         "DESIGN.md §4 C19"),
  "C16": ("exploration",
          "differential runtime monitor: the same generated statement program runs in one client process through the AT proxy, through the XA proxy and through the bare go-sql-driver against three fake databases with identical content; step results, statement journals, final committed contents and the coordinator's request log are compared",
          "Programs of queries, DML (literal / bound arguments, duplicate keys, syntax errors, unknown tables), prepared statements, explicit local transactions (default, isolation level, read-only; commit or rollback), pinned connections, multi-statement texts, DDL and locking reads, optionally with the server closing the idle pooled connections in between. Outside a global transaction (AT and XA proxies): identical journal (text, arguments, order), identical results (rows, column names/types, affected, last insert id, error number and text), no coordinator traffic. Inside a committed AT global transaction: identical business statement results, identical committed data, same business statements in the same order.",
